@@ -341,7 +341,15 @@ class Check:
         """Build model + proof cone.  Returns dict."""
         info = {"model_ok": False, "proof_ok": False, "broken": [], "log_tail": ""}
         with CoqLock():
-            rc, out = regen(self.gen_modules)
+            # every generated file the proof cone depends on is re-translated from the current source, not only the
+            # ones this property declares (a cone may import another property's theorems: C15 <- Colours tables)
+            mods = list(self.gen_modules)
+            for f in cone(self.prop_file):
+                mm = re.match(r"theories/Gen/(\w+)_gen\.v$", f)
+                if mm and mm.group(1) not in mods:
+                    mods.append(mm.group(1))
+            info["gen_modules"] = mods
+            rc, out = regen(mods)
             info["translator_rc"] = rc
             if rc not in (0, 3):
                 raise MachineryError("py2v crashed: " + out[-800:])
